@@ -87,6 +87,13 @@ def _fresh_str(v):
     return bytes(v, 'ascii').decode('ascii')
 
 
+def _rename_chain(s, compute_features, rename_extrema_df, compute_amp_consistency, recompute_edges, rebuild):
+    t = rename_extrema_df('trough', compute_features(-s['sig'], FS, FR, center_extrema='peak', threshold_kwargs=s['thr']))
+    if rebuild:
+        t = pd.DataFrame({c: t[c].to_numpy().copy() for c in t.columns})
+    return [np.asarray(compute_amp_consistency(t)), recompute_edges(t, s['thr'])]
+
+
 def _twin(obj):
     """Equal-valued reconstruction of an option structure: every dict, tuple and string is a new object."""
     if isinstance(obj, dict):
@@ -98,7 +105,7 @@ def _twin(obj):
     return copy.deepcopy(obj)
 
 
-TWINS = {'cf_trough_tw': 'cf_trough', 'cf_amp_tw': 'cf_amp', 'shape_t_tw': 'shape_t', 'h_rename_tw': 'h_rename', '2d_dict_tw': '2d_dict',
+TWINS = {'rename_cons_tw': 'rename_cons', 'cf_trough_tw': 'cf_trough', 'cf_amp_tw': 'cf_amp', 'shape_t_tw': 'shape_t', 'h_rename_tw': 'h_rename', '2d_dict_tw': '2d_dict',
          '2d_none_tw': '2d_none'}
 
 
@@ -136,6 +143,10 @@ def alphabet():
         'cf_band6.25': lambda s: compute_features(s['sig'], FS, (6.25, 14.75), threshold_kwargs=s['thr']),
         'cf_fs64.5': lambda s: compute_features(s['sig'], 64.5, FR, threshold_kwargs=s['thr']),
         'shape_nc3.5': lambda s: compute_shape_features(s['sig'], FS, FR, n_cycles=3.5),
+        # a table that went through the documented rename work-flow, and its twin rebuilt from the plain column values (same columns,
+        # values, dtypes, labels - no hidden metadata): equal tables give equal results
+        'rename_cons': lambda s: _rename_chain(s, compute_features, rename_extrema_df, compute_amp_consistency, recompute_edges, False),
+        'rename_cons_tw': lambda s: _rename_chain(s, compute_features, rename_extrema_df, compute_amp_consistency, recompute_edges, True),
         # TWINS: the same call with equal-valued but distinct argument objects (strings built at run time, options after a pickle
         # round trip, the array copied): the result depends on argument VALUES only
         'cf_trough_tw': lambda s: compute_features(s['sig'].copy(), int(str(FS)), tuple(float(v) for v in FR), center_extrema=_fresh_str('trough'),
@@ -226,7 +237,7 @@ def alphabet():
     return A
 
 
-NAMES = ['amp_longA', 'amp_longB', 'cf_longA', 'cf_longB', 'cf_band6.5', 'cf_band6.25', 'cf_fs64.5', 'shape_nc3.5', 'ampcons_z', 'percons_z', 'burstfeat_z', 'cf_z', 'cf_trough_tw', 'cf_amp_tw', 'shape_t_tw', 'h_rename_tw', '2d_dict_tw', '2d_none_tw', 'h_rename_nosamp', 'h_rename', 'h_split', 'h_flatten', 'h_detect_c', 'h_detect_a', 'h_minrun', 'burstfeat_c_off', 'edges_off',
+NAMES = ['rename_cons', 'rename_cons_tw', 'amp_longA', 'amp_longB', 'cf_longA', 'cf_longB', 'cf_band6.5', 'cf_band6.25', 'cf_fs64.5', 'shape_nc3.5', 'ampcons_z', 'percons_z', 'burstfeat_z', 'cf_z', 'cf_trough_tw', 'cf_amp_tw', 'shape_t_tw', 'h_rename_tw', '2d_dict_tw', '2d_none_tw', 'h_rename_nosamp', 'h_rename', 'h_split', 'h_flatten', 'h_detect_c', 'h_detect_a', 'h_minrun', 'burstfeat_c_off', 'edges_off',
          'limit_off', 'epoch_off', 'mono_off', 'cf_fek_empty', 'shape_fek_other', 'extrema_fk_empty', 'cf_fail_t', 'cf_fail_amp', 'shape_fail_t', 'amp_buf_A', 'amp_buf_B', 'cf_default', 'cf_default_t', 'cf_amp_default', 'cf_amp_nothr_m8', 'edges_noburst', 'cf_buf_A', 'cf_buf_B', 'shape_buf_B', 'cf_cycles', 'cf_trough', 'cf_amp', 'cf_amp_m', 'cf_amp_t', 'cf_nosamp', 'shape', 'shape_t', 'cyclepoints',
          'burstfeat_c', 'burstfeat_a', 'ampfrac', 'ampcons', 'percons', 'mono', 'bfrac', 'extrema', 'zerox', 'phase',
          '2d_dict', '2d_amp', '2d_list', '2d_none', '2d_none_list', '3d', '3d_1', '3d01', 'edges', 'edges_t', 'limit',
